@@ -340,6 +340,10 @@ func init() {
 				}
 				R.decide("C15.e", "common.HashCommit:callsites", "at least 7 call sites of HashCommit", n >= 7, fmt.Sprintf("%d", n), "")
 			}},
+		Rule{ID: "C15.f", Explain: "the signature-session marker that is hashed is the caller's: in ProofD.Verify / ProofU.Verify / ProofList.Verify and the builders the issig argument of createChallenge originates from the function's own issig parameter (or the tabled constant), also through helpers (the obligations of C02.f, same rule).",
+			Run: func(P *Program, R *Report) {
+				sharedRule(P, R, "C02", "C02.f", "C15.f", func(c string) bool { return strings.HasSuffix(c, ":issig") })
+			}},
 	)
 }
 
